@@ -3,7 +3,7 @@ from . import engprop, gen
 
 F = [gen.Feats(), gen.Feats(multibyte=True, flags=True), gen.Feats(lazy=True, atomic=True, look=True)]
 CFG = {
-    "prop": "C01", "theorems": ["C01_vm_follows_reference", "seg_all", "C01_reference_forms_agree", "C01_in_scope", "C01_vm_implements_atomized", "C01_vm_follows_reference_all", "C01_in_scope_all", "arrowA", "C01_from_pattern_string", "C01_from_ascii_pattern_string", "C01_parser_invariants"], "feats": F, "n_quick": 500, "n_thorough": 12000,
+    "prop": "C01", "theorems": ["C01_vm_follows_reference", "seg_all", "C01_reference_forms_agree", "C01_in_scope", "C01_vm_implements_atomized", "C01_vm_follows_reference_all", "C01_in_scope_all", "arrowA", "C01_from_pattern_string", "C01_from_ascii_pattern_string", "C01_from_utf8_pattern_string", "C01_parser_invariants"], "feats": F, "n_quick": 500, "n_thorough": 12000,
     "tiers": ("t2", "run", "sem"), "k_base_quick": 14, "k_extra_quick": 8, "k_base_thorough": 80, "k_extra_thorough": 40,
     "corpus": ["(?=(a|ab)(?=))\\1c", "(?<=\\G.)", "(?>(?:(?=a)a*){2})", "(?:(?!-)\\w+-?){3}+", "(\\w)(?:\\1\\w*){2}+",
                "(?:ab|a)(?=)b", "(a|ab)(c|bcd)(d*)", "(?<=ab|c)x", "(?<=bc|a)", "a(?=b)", "(a*)*b", "(?:a|b)*?c", "x*?$",
